@@ -172,7 +172,9 @@ CLAIMS = {
              "generators and member templates inlined) are lowered to one IR and symbolically executed under the forward/backward scenarios; "
              "DIR/MAG/TEMPLATE/READ-ONLY rules + the lemma of DESIGN.md imply every clause; CHAIN: every step starts from the newest estimate "
              "(state / covariance / control in their own parameters) and the newest estimate is returned; the configured maximum reaches the "
-             "generated C++ constant losslessly.",
+             "generated C++ constant losslessly; HOLD: a move to a reading's time is committed whole (time, state, covariance in one assignment), so "
+             "the held time and estimate cannot part when an update raises; the k-loop counter starts at 0 and advances by one; no narrowing of the time "
+             "arithmetic to float.",
         note="Assumes max_dt_sec > 0 and moderate times (the property's quantifier); trusts clang's front end and IEEE floor/abs.",
         ref="3/C10"),
     "C11": dict(
@@ -182,7 +184,9 @@ CLAIMS = {
              "STEP/UPDATE/WRITE/RETURN events and checked against the TickPlan: readings folded in the given order (the argument itself, only an "
              "absent one read as empty), held fields written per reading component by component, the update applied to the held estimate with the "
              "reading's own key and data, output propagation returned and never held, control required (guard = exactly `control is None and "
-             "control_size > 0`) and passed on, Python and C++ skeletons equal.",
+             "control_size > 0`; for the C++ overloads the literal static_assert or, failing that, compile-fail witnesses) and passed on, no reading "
+             "skipped (`continue` is structured into a guard), Python and C++ skeletons equal and both step functions on the one step-plan template "
+             "(STEP-SIBLINGS).",
         note="Trusts clang's front end. The step function's own purity is C10/READ-ONLY. Values of process/sensor models are C04/C05.",
         ref="3/C11"),
 }
